@@ -52,6 +52,7 @@ class World:
         self.drivers = dict(zip(CONFIGS, tus[:4]))
         self.tasksys, self.scheduler, self.witness, self.witness_tbb = tus[4:8]
         self.tag = '' if std == 'c++11' else ' ' + std
+        self.registry_roots = set()
         self.byref_wrappers = {}   # (tu, record id) -> (field name, type): task wrappers that hold the closure by reference
         self.submit = {}     # q -> exit counts
         self.joinfn = {}     # q -> bool (joins on every path)
@@ -2239,6 +2240,10 @@ def check_publication_order(ctx, W, tu, verdicts=None):
     def norm(ap, prefix):
         if ap is not None and ap and ap[0] == 'this' and prefix is not None:
             return prefix + ap[1:]
+        if ap is not None and ap and ap[0] != 'this':
+            tgt = ref_target(tu, tu.node(ap[0]))        # a local reference to a static object denotes that object
+            if tgt is not None:
+                return (tgt['id'],) + ap[1:]
         return ap
     tables = {}
 
@@ -2352,6 +2357,8 @@ def check_publication_order(ctx, W, tu, verdicts=None):
             for ap in gained:
                 if is_shared_root(tu, ap[0]):
                     sink['shared'] = True
+                    if tu is W.tasksys:
+                        W.registry_roots.add(ap[0])
                     if not sub:
                         sink['problems'].append(('published-before-scheduled', 'the task `%s` is put into the shared container `%s` at %s '
                                                  'on a path where it has not been handed to the scheduler yet: until AddTaskSetToPipe increments it, '
@@ -4081,6 +4088,336 @@ def _arith_known(tu, assign):
     return True
 
 
+# ================================================================================================
+#  R-C02-14 work stealing visits every other pipe (a queued task is visible to every idle thread)
+# ================================================================================================
+R14 = 'R-C02-14'
+
+
+def same_expr(tu, a, b, depth=0):
+    """structural equality of two small expressions (declarations, members, constants, + - * %)"""
+    ca, cb = core(tu, a), core(tu, b)
+    if ca is None or cb is None or depth > 6:
+        return False
+    va, vb = const_value(tu, ca), const_value(tu, cb)
+    if va is not None or vb is not None:
+        return va == vb
+    if ca.get('kind') != cb.get('kind'):
+        return False
+    k = ca.get('kind')
+    if k == 'DeclRefExpr':
+        return ca.get('referencedDecl', {}).get('id') == cb.get('referencedDecl', {}).get('id')
+    if k == 'MemberExpr':
+        return tu.sd(ca).get('d') == tu.sd(cb).get('d') and (not tu.kids(ca) or same_expr(tu, tu.kids(ca)[0], tu.kids(cb)[0], depth + 1))
+    if k == 'CXXThisExpr':
+        return True
+    if k == 'BinaryOperator':
+        return ca.get('opcode') == cb.get('opcode') and all(same_expr(tu, x, y, depth + 1) for x, y in zip(tu.kids(ca), tu.kids(cb)))
+    return False
+
+
+def check_steal_loops(ctx, W, tu, only_prefix=None, verdicts=None):
+    n = 0
+    for f in sorted(tu.functions.values(), key=lambda f: f['q']):
+        if f['dep'] or tu.cfg(f) is None or (only_prefix is not None and not f['q'].startswith(only_prefix)):
+            continue
+        decl = X.fn_decl(tu, f)
+        for L in tu.walk(decl):
+            k = L.get('kind')
+            ks = tu.kids(L)
+            if k == 'WhileStmt' and len(ks) >= 2:
+                cond, body = ks[-2], ks[-1]
+            elif k == 'ForStmt' and len(ks) >= 2:
+                body = ks[-1]
+                cs = [y for y in ks[:-1] if 'type' in y and y.get('type', {}).get('qualType') == 'bool']
+                cond = cs[0] if cs else None
+            else:
+                continue
+            if cond is None:
+                continue
+            steals = [y for y in tu.walk(body) if y.get('kind') == 'CXXMemberCallExpr' and tu.sd(y).get('q', '').endswith('::ReaderTryReadBack')]
+            if not steals:
+                continue
+            # the victim index: pipes[ V ] with V = (A + C) % N computed in the loop (directly or through a variable)
+            obj = core(tu, tu.call_parts(steals[0])[1])
+            if obj is None or obj.get('kind') != 'ArraySubscriptExpr':
+                continue
+            idx = core(tu, tu.kids(obj)[1])
+            rot = None
+            cand = [idx]
+            v = decl_ref(tu, idx)
+            if v:
+                vd = tu.node(v)
+                if vd is not None and tu.kids(vd) and vd.get('kind') == 'VarDecl':
+                    cand.append(tu.kids(vd)[-1])
+                for y in tu.walk(body):
+                    if y.get('kind') == 'BinaryOperator' and y.get('opcode') == '=' and decl_ref(tu, tu.kids(y)[0]) == v:
+                        cand.append(tu.kids(y)[1])
+            for c0 in cand:
+                c = core(tu, c0)
+                if c is not None and c.get('kind') == 'BinaryOperator' and c.get('opcode') == '%':
+                    rot = c
+            n += 1
+            name = r7_name(f)
+            inst = '[%s] %s: stealing loop at %s' % (tu.config, f['q'], tu.loc(L)) + W.tag
+            verdict, text = None, ''
+            if rot is None:
+                verdict, text = 'undecided', 'the victim pipe index is not of the form (start + counter) %% count'
+            else:
+                summ = core(tu, tu.kids(rot)[0])
+                nexpr = tu.kids(rot)[1]
+                counter = None
+                bound = None
+                # the loop continues while counter < bound (one conjunct of the condition)
+                conj = []
+
+                def conjuncts(e):
+                    c = core(tu, e)
+                    if c is not None and c.get('kind') == 'BinaryOperator' and c.get('opcode') == '&&':
+                        conjuncts(tu.kids(c)[0])
+                        conjuncts(tu.kids(c)[1])
+                    elif c is not None:
+                        conj.append(c)
+                conjuncts(cond)
+                start = None
+                for c in conj:
+                    if c.get('kind') == 'BinaryOperator' and c.get('opcode') in ('<', '!=') and decl_ref(tu, tu.kids(c)[0]):
+                        cv = decl_ref(tu, tu.kids(c)[0])
+                        if summ is not None and summ.get('kind') == 'BinaryOperator' and summ.get('opcode') == '+':
+                            for i0 in (0, 1):
+                                if decl_ref(tu, tu.kids(summ)[i0]) == cv:
+                                    counter, bound, start = cv, tu.kids(c)[1], tu.kids(summ)[1 - i0]
+                skips_self = None
+                for y in tu.walk(body):
+                    if y.get('kind') == 'BinaryOperator' and y.get('opcode') == '!=' and v and \
+                            (decl_ref(tu, tu.kids(y)[0]) == v or decl_ref(tu, tu.kids(y)[1]) == v):
+                        skips_self = tu.kids(y)[1] if decl_ref(tu, tu.kids(y)[0]) == v else tu.kids(y)[0]
+                if counter is None or bound is None:
+                    verdict, text = 'undecided', 'cannot relate the loop counter to the rotation %s' % tu.show(rot)
+                elif same_expr(tu, bound, nexpr):
+                    verdict, text = 'ok', 'the rotation %s runs over all %s positions' % (tu.show(rot), tu.show(nexpr))
+                else:
+                    b = core(tu, bound)
+                    short = b is not None and b.get('kind') == 'BinaryOperator' and b.get('opcode') == '-' and \
+                        same_expr(tu, tu.kids(b)[0], nexpr) and (const_value(tu, tu.kids(b)[1]) or 0) >= 1
+                    st = core(tu, start) if start is not None else None
+                    from_next = skips_self is not None and st is not None and st.get('kind') == 'BinaryOperator' and st.get('opcode') == '+' and \
+                        any(same_expr(tu, tu.kids(st)[i0], skips_self) and const_value(tu, tu.kids(st)[1 - i0]) == 1 for i0 in (0, 1))
+                    if short and const_value(tu, tu.kids(b)[1]) == 1 and from_next:
+                        verdict, text = 'ok', 'the rotation starts at the next pipe and covers the %s - 1 other pipes' % tu.show(nexpr)
+                    elif short and skips_self is not None:
+                        verdict = 'violation'
+                        text = ('the stealing loop makes only %s iterations of the rotation %s, one of which can fall on the thread\'s own '
+                                'index (%s is skipped in the body), and it starts at `%s`, which is not tied to the own index: whenever that '
+                                'start is not own index + 1 one pipe is never looked at. A task queued in that pipe is invisible to this '
+                                'thread; if its owner is busy or blocked the task never runs (the idle thread spins without finding it)'
+                                % (tu.show(bound), tu.show(rot), tu.show(skips_self), tu.show(start) if start is not None else '?'))
+                    else:
+                        verdict, text = 'undecided', 'loop bound %s against rotation modulus %s not understood' % (tu.show(bound), tu.show(nexpr))
+            if verdicts is not None:
+                verdicts.append((short_name(f['q']), {'ok': False, 'violation': True, 'undecided': None}[verdict]))
+                continue
+            if verdict == 'ok':
+                ctx.ok(R14, inst, text, tu.loc(L))
+            elif verdict == 'undecided':
+                ctx.undecided(R14, inst, text, tu.loc(L))
+            else:
+                ctx.violation(R14, inst, text, tu.loc(cond), key='%s|%s|%s|steal-loop-misses-a-pipe' % (R14, tu.fn_file(f), name))
+    return n
+
+
+# ================================================================================================
+#  R-C02-15 a slot of the single-writer ring is overwritten only after its flag showed that the readers released it
+# ================================================================================================
+R15 = 'R-C02-15'
+
+
+def check_slot_protocol(ctx, W, tu, only_prefix=None, verdicts=None):
+    """classes with a buffer array and a flags array indexed alike: the writer stores into buffer[i] only on a path where
+    flags[i] was compared equal to the constant the readers store after they have copied the item"""
+    n = 0
+    by_rec = {}
+    for f in tu.functions.values():
+        if f['dep'] or tu.cfg(f) is None or not f.get('recid') or (only_prefix is not None and not f['q'].startswith(only_prefix)):
+            continue
+        by_rec.setdefault(f['recid'], []).append(f)
+    for recid, fns in sorted(by_rec.items(), key=lambda kv: kv[1][0]['q']):
+        # array-element stores per function: (array field, index expr, value expr, node)
+        stores = {}
+        for f in fns:
+            for b, i, x in tu.cfg(f).stmts():
+                k = x.get('kind')
+                lhs = rhs = None
+                if k == 'BinaryOperator' and x.get('opcode') == '=':
+                    lhs, rhs = tu.kids(x)
+                elif k == 'CXXOperatorCallExpr' and tu.sd(x).get('q', '').split('::')[-1] == 'operator=' and len(tu.kids(x)) >= 3:
+                    lhs, rhs = tu.kids(x)[1], tu.kids(x)[2]
+                c = core(tu, lhs) if lhs is not None else None
+                if c is not None and c.get('kind') == 'ArraySubscriptExpr' and member_of_this(tu, tu.kids(c)[0]):
+                    stores.setdefault(f['id'], []).append((member_of_this(tu, tu.kids(c)[0]), tu.kids(c)[1], rhs, x, (b.id, i)))
+        # flags array: its elements receive compile-time constants in at least two functions; buffer: receives a parameter's value
+        const_arrays = {}
+        for fid, lst in stores.items():
+            for arr, ix, rhs, x, pos in lst:
+                cv = const_value(tu, rhs)
+                if cv is not None:
+                    const_arrays.setdefault(arr, {}).setdefault(fid, []).append(cv)
+        flags = [a for a, m in const_arrays.items() if len(m) >= 2]
+        if len(flags) != 1:
+            continue
+        flagarr = flags[0]
+        for f in sorted(fns, key=lambda f: f['q']):
+            pids = {p['id'] for p in f['params']}
+            for arr, ix, rhs, x, pos in stores.get(f['id'], []):
+                if arr == flagarr or decl_ref(tu, rhs) not in pids:
+                    continue
+                # a writer: buffer[ix] = parameter. Which constant do the *other* functions store into the flags after reading?
+                released = set()
+                for fid, m in const_arrays[flagarr].items():
+                    if fid != f['id']:
+                        released |= set(m)
+                n += 1
+                g = tu.cfg(f)
+                name = short_name(f['q'])
+                inst = '[%s] %s: store into the slot buffer at %s' % (tu.config, f['q'], tu.loc(x)) + W.tag
+                found = []
+
+                def transfer(blk, idx, e, st, x=x):
+                    if e[0] == 'S' and e[1] == x['id']:
+                        found.append(st)
+                    return [st]
+
+                def refine(blk, si, st, ix=ix):
+                    if blk.cond and len(blk.succ) == 2:
+                        c = deciding(tu, tu.node(blk.cond))
+                        pol = True
+                        for _h in range(4):         # !x, and a local bool that holds the comparison
+                            if c is not None and c.get('kind') == 'UnaryOperator' and c.get('opcode') == '!':
+                                pol = not pol
+                                c = core(tu, tu.kids(c)[0])
+                            elif c is not None and c.get('kind') == 'DeclRefExpr':
+                                vd = tu.node(c.get('referencedDecl', {}).get('id'))
+                                c = core(tu, tu.kids(vd)[-1]) if vd is not None and vd.get('kind') == 'VarDecl' and tu.kids(vd) \
+                                    and tu.enclosing_fn(vd) is not None else None
+                            else:
+                                break
+                        if not pol:
+                            si = 1 - si
+                        if c is not None and c.get('kind') == 'BinaryOperator' and c.get('opcode') in ('==', '!='):
+                            for a0, b0 in ((tu.kids(c)[0], tu.kids(c)[1]), (tu.kids(c)[1], tu.kids(c)[0])):
+                                ca = core(tu, a0)
+                                if ca is not None and ca.get('kind') == 'ArraySubscriptExpr' and member_of_this(tu, tu.kids(ca)[0]) == flagarr \
+                                        and same_expr(tu, tu.kids(ca)[1], ix) and const_value(tu, b0) is not None:
+                                    equal = (si == 0) == (c['opcode'] == '==')
+                                    if equal:
+                                        return [const_value(tu, b0)]
+                    return [st]
+                X.exit_states(g, [None], transfer, refine)
+                good = found and all(st is not None and st in released for st in found)
+                if verdicts is not None:
+                    verdicts.append((name, not good))
+                    continue
+                if good:
+                    ctx.ok(R15, inst, 'dominated by the test that the flag of the same slot equals %s, the value the readers store after '
+                           'copying the item out' % sorted(set(found)), tu.loc(x))
+                else:
+                    ctx.violation(R15, inst, 'the single writer stores a new item into the slot at %s on a path where the flag of that slot was '
+                                  'not seen released by the readers (readers set it to %s after they have copied the item out; counters such '
+                                  'as the read count advance before the copy): with a full ring the writer overwrites the item a reader is '
+                                  'still copying -- that task is lost or torn, another one runs twice'
+                                  % (tu.loc(x), sorted(released) or '?'), tu.loc(x),
+                                  key='%s|%s|%s|slot-written-without-flag-check' % (R15, tu.fn_file(f), short_name(f['q'])))
+    return n
+
+
+# ================================================================================================
+#  R-C02-16 the registry of detached tasks outlives the scheduler (static destruction order)
+# ================================================================================================
+R16 = 'R-C02-16'
+
+
+def ref_target(tu, vd, depth=0):
+    """the static object a local reference variable is bound to: `T &r = g;` / `T &r = accessor();` (accessor returns a static)"""
+    if vd is None or depth > 3 or not tu.kids(vd):
+        return None
+    t = vd.get('type', {}).get('qualType', '')
+    if not t.rstrip().endswith('&'):
+        return None
+    init = tu.kids(vd)[-1]
+    d = decl_ref(tu, init)
+    if d and tu.node(d) is not None and tu.node(d).get('kind') == 'VarDecl':
+        return tu.node(d)
+    c = core(tu, init)
+    if c is not None and c.get('kind') == 'CallExpr':
+        callee = tu.callee_fn(c)
+        if callee is not None and tu.cfg(callee) is not None:
+            rets = [y for b, i, y in tu.cfg(callee).stmts() if y.get('kind') == 'ReturnStmt' and tu.kids(y)]
+            if len(rets) == 1:
+                d2 = decl_ref(tu, tu.kids(rets[0])[0])
+                if d2 and tu.node(d2) is not None and tu.node(d2).get('kind') == 'VarDecl':
+                    return tu.node(d2)
+    return None
+
+
+def storage_order(tu, reg, holder):
+    """'ok' | ('violation', why) | ('undecided', why): is the static object `reg` destroyed after the static object `holder`?"""
+    if reg is None or holder is None:
+        return ('undecided', 'objects not identified')
+    t = reg.get('type', {}).get('qualType', '')
+    if t.rstrip().endswith('*'):
+        return 'ok'                 # a heap object reached through a pointer that is never destroyed itself
+    reg_local = tu.enclosing_fn(reg) is not None
+    hold_local = tu.enclosing_fn(holder) is not None
+    if hold_local:
+        return ('undecided', 'the scheduler is held by a function-local object')
+    if reg_local:
+        if reg.get('storageClass') == 'static':
+            return ('violation', '`%s` is a function-local static: it is constructed on first use, i.e. after the namespace-scope `%s`, '
+                                 'and therefore destroyed BEFORE it' % (reg.get('name'), holder.get('name')))
+        return ('undecided', '`%s` is an automatic object' % reg.get('name'))
+    fa, fb = tu.sd(reg).get('f'), tu.sd(holder).get('f')
+    oa = reg.get('range', {}).get('begin', {}).get('offset', reg.get('loc', {}).get('offset'))
+    ob = holder.get('range', {}).get('begin', {}).get('offset', holder.get('loc', {}).get('offset'))
+    if oa is None or ob is None:
+        return ('undecided', 'declaration order not available')
+    if oa < ob:
+        return 'ok'
+    return ('violation', '`%s` is declared after `%s` in the same unit: it is constructed later and destroyed BEFORE it'
+                         % (reg.get('name'), holder.get('name')))
+
+
+def check_registry_outlives_scheduler(ctx, W):
+    ts = W.tasksys
+    holder = None
+    for d in ts.nodes.values():
+        if d.get('kind') == 'VarDecl' and ts.enclosing_fn(d) is None and X.is_smart_ptr((d.get('type', {}).get('desugaredQualType') or
+                                                                                       d.get('type', {}).get('qualType', ''))) \
+                and 'TaskScheduler' in (d.get('type', {}).get('qualType', '')):
+            holder = d
+    regs = {}
+    for root in getattr(W, 'registry_roots', set()):
+        d = ts.node(root)
+        if d is not None and d.get('kind') == 'VarDecl':
+            regs[d['id']] = d
+    n = 0
+    for d in regs.values():
+        n += 1
+        inst = '[INTERNAL] registry of detached tasks `%s`' % d.get('name') + W.tag
+        r = storage_order(ts, d, holder)
+        if r == 'ok':
+            ctx.ok(R16, inst, 'destroyed after `%s` (declared before it / never destroyed): the scheduler\'s destructor, which still runs '
+                   'queued tasks, finds the registry alive' % (holder or {}).get('name'), ts.rel(ts.files[ts.sd(d)['f']]) if 'f' in ts.sd(d) else TASKSYS)
+        elif r[0] == 'undecided':
+            ctx.undecided(R16, inst, r[1], TASKSYS)
+        else:
+            ctx.violation(R16, inst, '%s. The scheduler\'s destructor (WaitforAllAndShutdown) still runs every queued task at exit; a task that '
+                          'calls schedule() then goes through the destroyed registry (dangling vector, tasks already deleted by its '
+                          'destructor are examined and deleted again), and tasks outstanding at that time are never released' % r[1],
+                          '%s:%s' % (TASKSYS, d.get('loc', {}).get('line', '?')),
+                          key='%s|%s|%s|registry-destroyed-before-scheduler' % (R16, TASKSYS, d.get('name')))
+    return n
+
+
 def check_wait_drains(ctx, W):
     """TaskScheduler::WaitforTask(p) returns, for p != null, only after p's running count was read as zero"""
     tu = W.scheduler
@@ -4181,6 +4518,9 @@ EXPECT_PROGRESS = {'rkverif::c02w::Handshake::publishThenWake#progress': False, 
                    'rkverif::c02w::Handshake::publishSpinUntilRoom#progress': True, 'rkverif::c02w::Handshake::publishOrRunInline#progress': False}
 EXPECT_REAP = {'rkverif::c02w::reapOutsideLock': False, 'rkverif::c02w::reapAfterUnlock': False, 'rkverif::c02w::reapSnapshot': True,
                'rkverif::c02w::sweepThenSchedule': False}
+EXPECT_STEAL = {'rkverif::c02w::Stealer::stealAll': False, 'rkverif::c02w::Stealer::stealShort': True, 'rkverif::c02w::Stealer::stealFromNext': False}
+EXPECT_SLOT = {'rkverif::c02w::SlotRing::writeChecked': False, 'rkverif::c02w::SlotRing::writeByCounters': True}
+EXPECT_ORDER_STATIC = {'w_registryBefore': False, 'w_registryAfter': True, 'w_registryLocal': True, 'w_registryHeap': False}
 EXPECT_REINIT = {'rkverif::c02w::reinitKeepsScheduler': True, 'rkverif::c02w::reinitFresh': False, 'rkverif::c02w::reinitDrained': False}
 EXPECT_HANDSHAKE = {'rkverif::c02w::Handshake::sleepRegisteredFirst': False, 'rkverif::c02w::Handshake::sleepCheckedFirst': True,
                     'rkverif::c02w::Handshake::sleepUnregistered': True, 'rkverif::c02w::Handshake::publishThenWake': False,
@@ -4221,6 +4561,21 @@ def check_witness(ctx, W, active_unused=None):
     got = {a: c for a, b, c in v}
     if got != EXPECT_DTOR:
         bad.append('wait-before-release detector: expected %s, got %s' % (EXPECT_DTOR, got))
+    v = []
+    check_steal_loops(ctx, W, tu, only_prefix='rkverif::c02w::', verdicts=v)
+    if dict(v) != EXPECT_STEAL:
+        bad.append('stealing-loop detector: expected %s, got %s' % (EXPECT_STEAL, dict(v)))
+    v = []
+    check_slot_protocol(ctx, W, tu, only_prefix='rkverif::c02w::', verdicts=v)
+    if dict(v) != EXPECT_SLOT:
+        bad.append('slot-protocol detector: expected %s, got %s' % (EXPECT_SLOT, dict(v)))
+    byname = {d.get('name'): d for d in tu.nodes.values() if d.get('kind') == 'VarDecl' and str(d.get('name', '')).startswith(('w_registry', 'w_ts'))}
+    got = {}
+    for nm in EXPECT_ORDER_STATIC:
+        r = storage_order(tu, byname.get(nm), byname.get('w_ts'))
+        got[nm] = True if (r != 'ok' and r[0] == 'violation') else (False if r == 'ok' else None)
+    if got != EXPECT_ORDER_STATIC:
+        bad.append('static-destruction-order detector: expected %s, got %s' % (EXPECT_ORDER_STATIC, got))
     v = []
     check_reap_exclusive(ctx, W, tu, only_prefix='rkverif::c02w::', verdicts=v)
     got = dict(v)
@@ -4320,6 +4675,9 @@ def run_world(ctx, W):
         check_reap_exclusive(ctx, W, tu)
     n7s, n7p = check_wake_protocol(ctx, W, W.scheduler)
     n10 = check_delete_under_lock(ctx, W, W.tasksys)
+    n14 = check_steal_loops(ctx, W, W.scheduler)
+    n15 = check_slot_protocol(ctx, W, W.scheduler)
+    n16 = check_registry_outlives_scheduler(ctx, W)
     n11 = check_full_pipe_progress(ctx, W, W.scheduler)
     info = classify_scheduler(ctx, W)
     n8 = n9 = n12 = n13 = 0
@@ -4332,7 +4690,7 @@ def run_world(ctx, W):
         n12 = check_workers_exist(ctx, W, info)
         n13 = check_partition_divisors(ctx, W, info)
     check_witness(ctx, W)
-    return dict(n13=n13, n12=n12, n2o=n2o, n11=n11, n10=n10, n9=n9, n8=n8, n7s=n7s, n7p=n7p, n1=n1 + n_sub, names=names, n2=n2, n3=n3, n4=n4, n5=n5, n6=n6, nsites=nsites)
+    return dict(n14=n14, n15=n15, n16=n16, n13=n13, n12=n12, n2o=n2o, n11=n11, n10=n10, n9=n9, n8=n8, n7s=n7s, n7p=n7p, n1=n1 + n_sub, names=names, n2=n2, n3=n3, n4=n4, n5=n5, n6=n6, nsites=nsites)
 
 
 def floors(ctx, r, tag=''):
@@ -4350,6 +4708,9 @@ def floors(ctx, r, tag=''):
     ctx.floor(R5, r['n5'], 8, 'async<IntJob>, async<StringJob&> x 4 backends' + tag)
     ctx.floor(R6, r['n6'], 5, 'ExecuteRange overrides: schedule_internal x 3, AsyncTaskImpl, parallel_for_internal' + tag)
     ctx.floor(R6, r['nsites'], 2, 'ExecuteRange call sites in TaskScheduler.cpp: 3' + tag)
+    ctx.floor(R14, r['n14'], 1, 'loops that steal from the pipes of other threads: TryRunTask' + tag)
+    ctx.floor(R15, r['n15'], 1, 'writers of the slot ring: LockLessMultiReadPipe::WriterTryWriteFront' + tag)
+    ctx.floor(R16, r['n16'], 1, 'shared containers that register detached tasks: g_detached' + tag)
     ctx.floor(R13, r['n13'], 1, 'divisions by partition counts on the path of AddTaskSetToPipe (m_NumPartitions, m_NumInitialPartitions): 2 functions x members on the pinned tree' + tag)
     ctx.floor(R12, r['n12'], 1, 'functions of the scheduler that write a task to a pipe: SplitAndAddTask' + tag)
     ctx.floor(R11, r['n11'], 1, 'functions of the scheduler that write a task to a pipe: SplitAndAddTask' + tag)
@@ -4376,6 +4737,9 @@ def run(ctx):
     ctx.assume('tbb::task_arena::enqueue, tbb::task_group::run, std::thread and the enkiTS pipe invoke a submitted callable exactly once '
                '(backend contract; the enkiTS partition/pipe bookkeeping is the subject of C01/C12)')
     ctx.assume('std::packaged_task / std::future deliver the value of the invoked callable (standard library contract)')
+    ctx.describe(R14, 'the stealing loop visits the pipe of every other thread whatever pipe it starts at')
+    ctx.describe(R15, 'the single writer of the slot ring stores into a slot only after the flag of that slot showed the readers released it')
+    ctx.describe(R16, 'the registry of detached tasks is destroyed after the scheduler (static destruction order)')
     ctx.describe(R13, 'every member the scheduler divides by is non-zero for every number of threads its callers can pass (interval '
                       'evaluation of its assignments under the branch conditions)')
     ctx.describe(R12, 'a task is left in a pipe only if a worker thread exists that can take it out: the number of workers derived from the '
